@@ -8,6 +8,7 @@ package an
 // 36*cnt stays opaque and nothing guarded through it counts as guarded.
 
 import (
+	"regexp"
 	"fmt"
 	"go/constant"
 	"go/token"
@@ -2657,6 +2658,14 @@ func (c *fctx) condFacts(cond ssa.Value, truth bool, depth int) []Constraint {
 		if x.Op == token.NOT {
 			return c.condFacts(x.X, !truth, depth+1)
 		}
+	case *ssa.Phi:
+		// a && b / a || b computed as a value (case of a tagless switch): on the side that differs from
+		// the short-circuit constants every operand is known
+		var out []Constraint
+		for _, o := range BoolPhiOperands(x, truth) {
+			out = append(out, c.condFacts(o.V, o.True, depth+1)...)
+		}
+		return out
 	case *ssa.BinOp:
 		op := x.Op
 		switch op {
@@ -3173,6 +3182,8 @@ var readerCalls = map[string]bool{
 	"(*bufio.Reader).Read": true, "(*bufio.Reader).ReadByte": true, "lib/btc.ReadVarInt": true, "lib/btc.ReadString": true,
 }
 
+var blockTag = regexp.MustCompile(`@b\d+`) // block numbers shift with every edit of the function
+
 func (c *fctx) loopProgress() {
 	for _, h := range c.fn.Blocks {
 		var latches []*ssa.BasicBlock
@@ -3222,6 +3233,13 @@ func (c *fctx) loopProgress() {
 		}
 		pos := InstrPos(h.Instrs[len(h.Instrs)-1])
 		where := c.ba.Prog.SrcAt(pos)
+		// name the loop by the canonical rendering of its test rather than by its source text, so that
+		// "0 != val" and "val != 0" are the same loop to an exception table
+		if iff, ok := h.Instrs[len(h.Instrs)-1].(*ssa.If); ok {
+			where = blockTag.ReplaceAllString(Expr(iff.Cond), "")
+		} else if len(exitTests) == 1 {
+			where = blockTag.ReplaceAllString(Expr(exitTests[0].Cond), "")
+		}
 		if c.loopHasVariant(h, latches, inLoop, exitTests) {
 			c.ba.Obs = append(c.ba.Obs, &BoundOb{Fn: c.fn, Instr: h.Instrs[len(h.Instrs)-1], Kind: "progress", Expr: "loop " + where, Need: "a strictly monotone loop variable bounded by the input size", Proven: true, Chain: c.chain, InRecover: c.inRecover})
 			continue
